@@ -108,11 +108,11 @@ Qed.
 Lemma detail_txn_inv : forall cfg e d t,
   detail_txn cfg e d = inl t ->
   exists t2 t3,
-    core t2 = core (base_txn e (td_frag d) (to_data (td_amount d) (td_cd d)) (Some (td_ref d))) /\
+    core t2 = core (base_txn e (td_frag d) (to_data (td_amount d) (td_cd d)) (Some (detail_code d))) /\
     add_charges t2 cfg (en_charges e) = inl t3 /\ add_charges t3 cfg (td_charges d) = inl t.
 Proof.
   intros cfg e d t. unfold detail_txn.
-  set (b := base_txn e (td_frag d) (to_data (td_amount d) (td_cd d)) (Some (td_ref d))).
+  set (b := base_txn e (td_frag d) (to_data (td_amount d) (td_cd d)) (Some (detail_code d))).
   match goal with |- match ?r with _ => _ end = _ -> _ => destruct r as [t2|] eqn:R end; [|discriminate].
   destruct (add_charges t2 cfg (en_charges e)) as [t3|] eqn:E3; [|discriminate].
   intros H. exists t2, t3. split; [|auto].
@@ -129,7 +129,7 @@ Qed.
 Lemma unit_txn_core : forall cfg u t,
   unit_txn cfg u = inl t ->
   core t = core (base_txn (unit_entry u) (unit_frag u) (to_data (unit_amount u) (unit_cd u))
-                          (match u with UEntry _ => None | UDetail _ d => Some (td_ref d) end)).
+                          (match u with UEntry e => Some (entry_code e) | UDetail _ d => Some (detail_code d) end)).
 Proof.
   intros cfg [e|e d] t H; simpl in H.
   - unfold entry_txn in H. apply add_charges_core in H. apply H.
